@@ -82,6 +82,8 @@ func newRegUniverse() (*regUniverse, error) {
 		// registration that fails in its second half must leave nothing of its first half
 		{id: 8, svc: "SvcF", name: "M8", rule: getRule("/c11/f/{name}"), keys: []int{108, 7}, samples: [][2]string{{"POST", ""}, {"GET", "/c11/f/n8"}}},
 		{id: 9, svc: "SvcF", name: "M9", stream: true, rule: getRule("/c11/v/{name=a/*}"), keys: []int{109, 1}, samples: [][2]string{{"POST", ""}, {"GET", "/c11/v/a/n9"}}},
+		// a method without any annotation: its only HTTP route is the implicit kind-'*' one, which delRule never finds
+		{id: 10, svc: "SvcC", name: "M10", keys: []int{110}, samples: [][2]string{{"POST", ""}}},
 	}
 	for _, m := range u.methods {
 		m.samples[0][1] = u.full(m)
@@ -541,7 +543,7 @@ func (r *regRun) probe(rounds int) {
 }
 
 func runC11(c *Ctx) {
-	c.Rule("random histories of RegisterService / RegisterConn / DropConn over 6 services (9 methods, one of them streaming; annotated routes that share one trie node holding a literal and four sorted variables, a deep wildcard, additional bindings, two services claiming the same route), 4 real gRPC backends with server reflection whose advertised descriptor set can change between calls (unchanged re-registration, changed re-registration, registrations that fail with a duplicate rule), an unknown connection, local registrations; after every call the published state (handler owners per method in order, connection table, where every live route leads) is compared with the Lean state machine, and every method is probed on every one of its routes and over gRPC: the answering backend must be live, a method with a live backend answers 200, one without 404/501. Non-trivial: histories of at least two calls; distinct by history+probe.")
+	c.Rule("random histories of RegisterService / RegisterConn / DropConn over 6 services (10 methods, one of them streaming; annotated routes that share one trie node holding a literal and four sorted variables, a deep wildcard, additional bindings, two services claiming the same route), 4 real gRPC backends with server reflection whose advertised descriptor set can change between calls (unchanged re-registration, changed re-registration, registrations that fail with a duplicate rule), an unknown connection, local registrations; after every call the published state (handler owners per method in order, connection table, where every live route leads) is compared with the Lean state machine, and every method is probed on every one of its routes and over gRPC: the answering backend must be live, a method with a live backend answers 200, one without 404/501. Non-trivial: histories of at least two calls; distinct by history+probe.")
 	u, err := newRegUniverse()
 	if err != nil {
 		c.SpecFail("fixture", "c11", err.Error(), "universe", "C11/fixture", "fixture")
@@ -564,6 +566,7 @@ func runC11(c *Ctx) {
 	}
 	defer ub.close()
 
+	c11TrieDel(c)
 	masks := []int{1, 2, 3, 4, 8, 16, 17, 18, 24, 9, 10, 6, 5, 15, 11, 27, 31, 26, 19, 32, 34, 33, 48, 42}
 	nh := c.N(30, 400)
 	for h := 0; h < nh; h++ {
